@@ -1058,6 +1058,87 @@ def find_object_loose(objs, name):
     return None
 
 
+RUST_KEYWORDS = {"as", "break", "const", "continue", "crate", "else", "enum", "extern", "false", "fn", "for", "if", "impl", "in", "let",
+                 "loop", "match", "mod", "move", "mut", "pub", "ref", "return", "self", "Self", "static", "struct", "super", "trait",
+                 "true", "type", "unsafe", "use", "where", "while", "async", "await", "dyn", "abstract", "become", "box", "do", "final",
+                 "macro", "override", "priv", "typeof", "unsized", "virtual", "yield", "try", "gen"}
+
+
+def keyword_names(c):
+    """F19's class: some name of the definition normalises to a Rust keyword (objects, enums and variants in PascalCase,
+    fields and accessors in snake_case)."""
+    nm = c.get("names") or {}
+    pas = lambda x: nm.get("pascal", {}).get(x, x)
+    snk = lambda x: nm.get("snake", {}).get(x, x)
+    meth = lambda x: nm.get("method", {}).get(pas(x), snk(x))
+    bad = []
+    for o in all_objects(c["adef"]["objects"]):
+        if pas(o["name"]) in RUST_KEYWORDS or meth(o["name"]) in RUST_KEYWORDS:
+            bad.append(o["name"])
+        for key in ("fields", "fields_in", "fields_out"):
+            for f in o.get(key) or []:
+                if snk(f["name"]) in RUST_KEYWORDS:
+                    bad.append(f["name"])
+                cv = f.get("conversion") or {}
+                if "enum" in cv:
+                    if pas(cv["enum"]["name"]) in RUST_KEYWORDS:
+                        bad.append(cv["enum"]["name"])
+                    bad += [v["name"] for v in cv["enum"]["variants"] if pas(v["name"]) in RUST_KEYWORDS]
+    return bad
+
+
+BLOCK_RESERVED = {"interface", "new", "read_all_registers", "read_all_registers_async"}
+FIELDSET_RESERVED = {"new", "new_with_zero", "get_inner_buffer", "get_inner_buffer_mut"}
+
+
+def derived_name_clashes(c):
+    """F21's class: identifiers the generator *derives* from distinct names coincide. Returns the clashing identifiers.
+    Top level: the device struct, one struct per block, one enum per inline enum. Module field_sets: one struct per
+    register, `<Command>FieldsIn` / `<Command>FieldsOut`, and `FieldSetValue`. Per block: one method per object (the
+    normalised name converted once more with the default word boundaries) next to the struct's own methods. Per field
+    set: getter `<f>`, setter `set_<f>` next to the struct's own methods."""
+    nm = c.get("names") or {}
+    pas = lambda x: nm.get("pascal", {}).get(x, x)
+    snk = lambda x: nm.get("snake", {}).get(x, x)
+    meth = lambda x: nm.get("method", {}).get(pas(x), snk(x))
+    clashes = []
+
+    def dups(names, where):
+        seen = set()
+        for n in names:
+            if n in seen:
+                clashes.append(f"{where}: {n}")
+            seen.add(n)
+
+    objs = list(all_objects(c["adef"]["objects"]))
+    top = [c["device_name"]] + [pas(o["name"]) for o in objs if o["kind"] == "block"]
+    fsets = ["FieldSetValue"]
+    for o in objs:
+        if o["kind"] == "register":
+            fsets.append(pas(o["name"]))
+        if o["kind"] == "command":
+            fsets += [pas(o["name"]) + "FieldsIn", pas(o["name"]) + "FieldsOut"]
+        for key in ("fields", "fields_in", "fields_out"):
+            fs = o.get(key) or []
+            names = list(FIELDSET_RESERVED)
+            for f in fs:
+                names += [snk(f["name"]), "set_" + snk(f["name"])]
+                cv = f.get("conversion") or {}
+                if "enum" in cv:
+                    top.append(pas(cv["enum"]["name"]))
+            dups(names, f"methods of the field set of {o['name']}")
+    dups(top, "top-level types")
+    dups(fsets, "module field_sets")
+
+    def block_methods(os, where):
+        dups(list(BLOCK_RESERVED) + [meth(o["name"]) for o in os], f"methods of block {where}")
+        for o in os:
+            if o["kind"] == "block":
+                block_methods(o["objects"], o["name"])
+    block_methods(c["adef"]["objects"], c["device_name"])
+    return clashes
+
+
 def block_named_like_device(c):
     """F14's class: some block (at any depth) whose normalised name is the device name."""
     nm = c.get("names") or {}
